@@ -27,7 +27,7 @@ RULE = ("random histories (20-120 operations: fire plain / extra / time-step, se
         "operation interleaved with fires (history) / when thread switches inside library code were observed (round)")
 MUST_OBSERVE = ["histories", "ops", "op_fire", "op_zero", "op_elev", "op_danger", "op_model", "ops_raised", "results_compared",
                 "pool_snapshots", "zero_changes_accepted", "thread_rounds", "thread_results_compared", "thread_switch_sites",
-                "thread_yields_injected", "shared_objects_in_pool", "warning_emitting_ops"]
+                "thread_yields_injected", "shared_objects_in_pool", "warning_emitting_ops", "op_mutate"]
 ASSUMPTIONS = ["the executable model of an operation is the same operation on a deep copy of its arguments (with the weapon's "
                "current stored zero) executed by a brand-new calculator of the same configuration",
                "thread schedules: only calculators owned by distinct threads, as the statement says; shared-calculator use is not explored",
@@ -92,10 +92,13 @@ def gen_ops(rng, n_shots, n_calcs, length):
             ops.append(["danger", i, c, 450.0, rng.choice([100.0, 300.0, 440.0, 2000.0]), rng.choice([0.5, 3.0])])
         elif k < 0.88:
             ops.append(["model", i, rng.choice(["multi", "plain", "multi_dicts"])])
-        elif k < 0.94:
+        elif k < 0.93:
             ops.append(["fire", i, c, 60000.0, 6000.0, rng.random() < 0.5, 0.0])      # beyond reach: RangeError
-        else:
+        elif k < 0.97:
             ops.append(["unit_error", i])
+        else:
+            ops.append(["mutate", i, rng.choice(["bc", "bullet", "table_inplace", "wind_until", "wind_append", "look", "mv", "atmo",
+                                                 "sight_height", "twist"]), round(rng.uniform(0.7, 1.4), 3)])
     return ops
 
 
@@ -141,6 +144,35 @@ def perform(op, shot, calc):
     raise ValueError(kind)
 
 
+def mutate(op, shot, shots):
+    """The caller changes an argument object through its public attributes (between calls, never during one)."""
+    what, k = op[2], op[3]
+    dm = shot.ammo.dm
+    if what == "bc":
+        dm.BC = dm.BC * k
+    elif what == "bullet":
+        dm.weight, dm.length, dm.diameter = pb.Weight.Grain(150.0 * k), Distance.Inch(1.2 * k), Distance.Inch(0.3 * k)
+    elif what == "table_inplace":
+        for p in dm.drag_table[len(dm.drag_table) // 3:]:
+            p.CD *= k
+    elif what == "wind_until":
+        w = shot._winds[0]  # pylint: disable=protected-access
+        w.until_distance = Distance.Foot(max(30.0, (w.until_distance >> Distance.Foot) * 0.3 if (w.until_distance >> Distance.Foot) < 1e6 else 200.0))
+        w.velocity = pb.Velocity.FPS(20.0 * k)
+    elif what == "wind_append":
+        shot._winds.append(pb.Wind(pb.Velocity.FPS(25.0 * k), pb.Angular.Degree(270.0), Distance.Foot(5000.0)))  # pylint: disable=protected-access
+    elif what == "look":
+        shot.look_angle = pb.Angular.Degree(8.0 * (k - 1.0))
+    elif what == "mv":
+        shot.ammo.mv = pb.Velocity.FPS(max(700.0, (shot.ammo.mv >> pb.Velocity.FPS) * k))
+    elif what == "atmo":
+        shot.atmo = pb.Atmo.icao(Distance.Foot(3000.0 * k))
+    elif what == "sight_height":
+        shot.weapon.sight_height = Distance.Inch(2.0 * k)
+    elif what == "twist":
+        shot.weapon.twist = Distance.Inch(9.0 * k)
+
+
 def pool_snapshot(shots):
     return {"shots": [snap(s) for s in shots],
             "tables": {n: [(p["Mach"], p["CD"]) for p in getattr(pb, "Table" + n)] for n in TABLE_NAMES},
@@ -172,6 +204,10 @@ def check_history(ctx, case):
             ctx.count("ops")
             ctx.count("op_" + op[0])
             shot = shots[op[1]]
+            if op[0] == "mutate":
+                mutate(op, shot, shots)
+                ctx.count("mutation_" + op[2])
+                continue
             cfg = configs[op[2]] if len(op) > 2 and isinstance(op[2], int) else None
             calc = calcs[op[2]] if len(op) > 2 and isinstance(op[2], int) else None
             if op[0] == "fire" and op[1] == 0:
